@@ -114,6 +114,8 @@ def perform(a: Dict[str, Any], w, rng, rec, tg) -> List[Dict[str, Any]]:
         o1, o2 = out1[env1.fock], out2[env2.fock]
         out.append({"prop": "C11", "clause": "exactly-one-photon-is-detected", "ok": o1 + o2 == 1, "detail": f"detected {o1} + {o2}", "method": "mach_zehnder"})
         return out
+    if kind == "invalid":
+        return invalid_request(a, w, rng, rec, tg)
     if kind == "trace_out":
         if entry == "self":
             tg[0].trace_out()
@@ -181,3 +183,102 @@ def perform(a: Dict[str, Any], w, rng, rec, tg) -> List[Dict[str, Any]]:
             W.ce_of(w, tg[0]).resize_fock(nd, tg[0])
         return out
     raise ValueError("unknown action kind " + kind)
+
+
+def invalid_request(a, w, rng, rec, tg):
+    """C17: a request that cannot be honoured raises (or returns the documented failure value); afterwards the joint
+    physical state is exactly what it was, the world is well formed, and a valid continuation works."""
+    import jax.numpy as jnp
+    from . import actions
+    from .contracts import live_joint
+    from photon_weave.operation import (CompositeOperationType, CustomStateOperationType, FockOperationType, Operation,
+                                        PolarizationOperationType)
+    what = a["what"]
+    entry = a.get("entry", "self")
+    before = W.snapshot(w)
+    try:
+        j0 = live_joint(w, before)
+    except Exception:
+        j0 = None
+    x = tg[0] if tg else None
+    ce = W.ce_of(w, x) if x is not None else None
+    env = getattr(x, "envelope", None)
+    raised, result = None, "<no result>"
+    D = int(np.prod([W.dim_of(t) for t in tg])) if tg else 1
+
+    def call(meth, *args, **kw):
+        if entry == "self":
+            return getattr(x, meth)(*args, **kw)
+        if entry == "env":
+            return getattr(env, meth)(*args, *tg, **kw) if meth != "apply_operation" else env.apply_operation(args[0], *tg)
+        return getattr(ce, meth)(*args, *tg, **kw)
+    try:
+        if what == "kraus-not-trace-preserving":
+            result = call("apply_kraus", _J([0.5 * np.eye(D, dtype=complex), 0.5 * np.eye(D, dtype=complex)]))
+        elif what == "kraus-wrong-size":
+            result = call("apply_kraus", _J(complete_set(D + 1, 2, 3)))
+        elif what == "povm-wrong-size":
+            result = call("measure_POVM", _J(complete_set(D + 1, 2, 3)))
+        elif what == "custom-operator-wrong-size":
+            fam = PolarizationOperationType if type(x).__name__ == "Polarization" else CustomStateOperationType if type(x).__name__ == "CustomState" else FockOperationType
+            op = Operation(fam.Custom, operator=jnp.array(np.eye(W.dim_of(x) + 1, dtype=complex)))
+            result = call("apply_operation", op)
+        elif what == "wrong-kind-of-subsystem":
+            op = Operation(PolarizationOperationType.X) if type(x).__name__ != "Polarization" else Operation(FockOperationType.Creation)
+            result = call("apply_operation", op)
+        elif what == "subsystem-outside-the-container":
+            foreign = w.objs[a["foreign"]]
+            op = Operation(PolarizationOperationType.X) if type(foreign).__name__ == "Polarization" else Operation(FockOperationType.PhaseShift, phi=0.3)
+            if entry == "env":
+                result = env.apply_operation(op, foreign)
+            else:
+                result = ce.apply_operation(op, foreign)
+        elif what == "kraus-outside-the-container":
+            foreign = w.objs[a["foreign"]]
+            ops = _J(named_channel("dephasing", W.dim_of(foreign), 1))
+            result = env.apply_kraus(ops, foreign) if entry == "env" else ce.apply_kraus(ops, foreign)
+        elif what == "annihilate-the-vacuum":
+            result = call("apply_operation", Operation(FockOperationType.Annihilation))
+        elif what == "shrink-below-occupied-levels":
+            nd = a["new"]
+            if entry == "self":
+                result = x.resize(nd)
+            elif entry == "env":
+                result = env.resize_fock(nd)
+            else:
+                result = ce.resize_fock(nd, x)
+        elif what == "duplicate-kraus-targets":
+            result = ce.apply_kraus(_J(complete_set(D * D, 2, 3)), x, x)
+        else:
+            raise ValueError("unknown invalid request " + what)
+    except Exception as ex:
+        raised = ex
+    out = []
+    rejected = raised is not None or (what == "shrink-below-occupied-levels" and result is False)
+    out.append({"prop": "C17", "clause": "invalid-request-is-rejected", "ok": bool(rejected),
+                "detail": "" if rejected else f"{what}: the call returned {str(result)[:60]!r} instead of raising / reporting failure", "method": what})
+    after = W.snapshot(w)
+    errs = [m for p_, m in after.errors if p_ in ("C07", "C13", "C05")]
+    out.append({"prop": "C17", "clause": "world-is-well-formed-after-the-rejected-call", "ok": not errs, "detail": "; ".join(errs[:3]), "method": what})
+    if j0 is not None:
+        try:
+            rho1, dims1, names1 = live_joint(w, after)
+            rho0, dims0, names0 = j0
+            if names1 != names0:
+                out.append({"prop": "C17", "clause": "joint-state-unchanged-after-the-rejected-call", "ok": False, "detail": f"live subsystems {names0} -> {names1}", "method": what})
+            else:
+                p0 = W.pad_rho(rho0, dims0, dims1) if dims0 != dims1 else rho0
+                ok = p0 is not None and p0.shape == rho1.shape and float(np.max(np.abs(p0 - rho1))) <= 1e-8
+                out.append({"prop": "C17", "clause": "joint-state-unchanged-after-the-rejected-call", "ok": bool(ok),
+                            "detail": "" if ok else (f"max deviation {float(np.max(np.abs(p0 - rho1))):.3g}" if p0 is not None and p0.shape == rho1.shape else f"dims {dims0} -> {dims1}"),
+                            "method": what})
+        except Exception as ex:
+            out.append({"prop": "C17", "clause": "joint-state-unchanged-after-the-rejected-call", "ok": False, "detail": f"joint state unreadable: {ex}", "method": what})
+    # valid continuation
+    for sub in a.get("then", []):
+        try:
+            out += actions.perform(sub, w, rng, rec) or []
+            out.append({"prop": "C17", "clause": "valid-continuation-works", "ok": True, "detail": "", "method": what})
+        except Exception as ex:
+            out.append({"prop": "C17", "clause": "valid-continuation-works", "ok": False, "detail": f"{type(ex).__name__}: {ex}", "method": what})
+    return out
